@@ -1,7 +1,7 @@
 (* C13 -- the end-to-end statements, assembled from ProofsRollup (statm, roll-up),
    ProofsSums (the three regex scans), ProofsMaps (block splitter), ProofsGroup
    (grouping, memory_percent). *)
-From PV Require Import C13.Spec C13.Lib C13.ProofsMaps C13.ProofsSums C13.ProofsRollup C13.ProofsGroup Gen.C13_Tables.
+From PV Require Import C13.Spec C13.Lib C13.ProofsMaps C13.ProofsSums C13.ProofsRollup C13.ProofsGroup C13.ProofsHist Gen.C13_Tables.
 
 (* _parse_smaps on every kernel-formatted listing *)
 Theorem parse_smaps_spec ex ms : forallb (wf_kernel ex) ms = true ->
@@ -264,3 +264,31 @@ Theorem layouts_agree :
   /\ pmem_fields = doc_pmem /\ pfullmem_fields = doc_pfullmem /\ full_names = doc_pfullmem
   /\ map_keys = map (fun f => fig_name f ++ [58]) row_figs.
 Proof. repeat split. Qed.
+
+
+(* ------------------------------------------------ memory_percent over histories *)
+(* over the kernel's files: every memory_percent of every history of virtual_memory() calls and
+   MemTotal changes divides by the total the last virtual_memory() call reported *)
+Theorem percent_history ex pagesize r ms kernel0 ops :
+  wf_statm r = true -> forallb (wf_kernel ex) ms = true -> hist_ok ops = true -> 0 < kernel0 ->
+  run_hist (with_file Alive (FContent (k_statm r)) (memory_info pagesize))
+           (memory_full_info Alive pagesize false FENOENT (FContent (k_smaps ms)) (FContent (k_statm r)))
+           None kernel0 ops
+  = spec_hist (spec_full pagesize r ms) None kernel0 ops.
+Proof.
+  intros Hr Hms Hok Hk. rewrite (full_info_smaps ex pagesize r ms false FENOENT Hr Hms (or_introl eq_refl)).
+  cbn [with_file]. rewrite (statm_roundtrip pagesize r Hr).
+  assert (E : spec_meminfo pagesize r = firstn 7 (spec_full pagesize r ms)).
+  { unfold spec_full. destruct (spec_sums ms) as [[a b] c]. reflexivity. }
+  rewrite E. apply hist_spec; auto; [|discriminate].
+  unfold spec_full. destruct (spec_sums ms) as [[a b] c]. reflexivity.
+Qed.
+
+(* a stale cache is wrong: [virtual_memory(); MemTotal 8 -> 4 GiB; virtual_memory(); percent]
+   must divide by 4 GiB *)
+Example history_example :
+  spec_hist [4096; 0; 0; 0; 0; 0; 0; 0; 0; 0] None 8589934592 [HVM; HSet 4294967296; HVM; HPct (bs "rss")]
+  = [Val (409600, 4294967296)]
+  /\ spec_hist [4096; 0; 0; 0; 0; 0; 0; 0; 0; 0] None 8589934592 [HVM; HSet 4294967296; HPct (bs "rss")]
+  = [Val (409600, 8589934592)].
+Proof. split; reflexivity. Qed.
